@@ -16,18 +16,12 @@
 #include "hash_log.h"
 #include "src/secp256k1.c"
 #include "post.h"
-/* verif.h's INPUT_BUF allocates 1 byte for len == 0; exact objects also for the empty input: */
-#ifndef VERIF_NATIVE
-# define INPUT_BUF_EXACT(name, ptr, len, N) do { ptr = malloc(len); __CPROVER_assume(ptr != NULL); } while (0)
-#else
-# define INPUT_BUF_EXACT(name, ptr, len, N) INPUT_BUF(name, ptr, len, N)
-#endif
 
 #define API_POST(name, all_args) do { \
     __CPROVER_assert(ret == 0 || ret == 1, "C07 " name ": returns 0 or 1"); \
     __CPROVER_assert(g_error == 0, "C07 " name ": error callback never invoked"); \
     if (all_args) __CPROVER_assert(g_illegal == 0, "C07 " name ": no illegal callback for non-NULL arguments"); \
-    else __CPROVER_assert(ret == 0 && g_illegal == 1, "C07 " name ": NULL argument => 0 and one illegal callback"); \
+    else __CPROVER_assert(ret == 0 && g_illegal == 1, "C07 " name ": illegal argument (NULL, or outside its documented range) => 0 and exactly one illegal callback"); \
 } while (0)
 
 void h_ec_pubkey_parse(void) {
@@ -35,7 +29,7 @@ void h_ec_pubkey_parse(void) {
     unsigned char *in; int ret;
     verif_ctx_init(&ctx);
     __CPROVER_assume(len_ec_pubkey_parse <= 100);
-    INPUT_BUF_EXACT(inbuf, in, len_ec_pubkey_parse, 65);
+    INPUT_BUF(inbuf, in, len_ec_pubkey_parse, 65);
     ret = secp256k1_ec_pubkey_parse(&ctx, use_pk_ec_pubkey_parse ? &pk_ec_pubkey_parse : NULL, use_in_ec_pubkey_parse ? in : NULL, len_ec_pubkey_parse);
     WITNESS_BUF(inbuf, in, len_ec_pubkey_parse, 65);
     API_POST("ec_pubkey_parse", use_pk_ec_pubkey_parse && use_in_ec_pubkey_parse);
